@@ -2,6 +2,7 @@ import Driver.Util
 import Driver.SchemaJson
 import SaModel.Codec.SchemaJson
 import SaModel.Spec.SchemaOK
+import SaModel.Spec.SchemaSide
 /- suite `schema` (C09): the model's printer / parser / acceptance on the same fields as the real crate -/
 namespace Driver.Suites.Schema
 open Lean Driver SaModel SaModel.Dsl SaModel.SchemaJson
@@ -145,9 +146,13 @@ def handleFields (j : Json) : Except String Verdict := do
         let expect := fs.map fun f => match f with
           | .mk n .null _ m => Field.mk n .null true m
           | f => f
-        -- a field object the crate's own validation rules (validateField, the model of validate_field) reject must
-        -- not be accepted
-        if !(acceptForeignList fs).isOk then specFail := specFail ++ [(s!"C09/{key}/invalid-accepted/{blame.getD (firstCtor fs)}", s!"{key}: a field object that does not denote a valid schema was accepted")]
+        -- a field object that does not denote a valid schema (`validField`, the explicit predicate of Spec/SchemaOK.lean,
+        -- not the operational model: `C09_foreign_iff` says they agree) must not be accepted; the entries field of a map
+        -- carrying a strategy no struct admits has its own signature (the defect repaired by `fix: validate_map_field
+        -- validates the entries field itself`)
+        if !valid then
+          let what := if !fs.all entriesField then "Map/entries-strategy" else blame.getD (firstCtor fs)
+          specFail := specFail ++ [(s!"C09/{key}/invalid-accepted/{what}", s!"{key}: a field object that does not denote a valid schema was accepted")]
         else if got != expect then specFail := specFail ++ [(s!"C09/{key}/altered/{firstCtor fs}", s!"{key}: accepted fields differ from the given ones")]
       else if cls == "err" && inDomain then
         specFail := specFail ++ [(s!"C09/{key}/rejected/{firstCtor fs}", s!"{key}: a valid schema was rejected")]
